@@ -327,6 +327,20 @@ def gen_workload(seed):
         if mode == 'same_object' and of is not None:
             st['of'] = of
         steps.append(st)
+    # stop / restart sequences in which the save frequency and the way the
+    # run is launched change from one incarnation to the next (a first run
+    # from the command line, resumed from a script with another checkpoint
+    # interval ...); own stream, so the other workloads stay as they were
+    mix = stream(seed, 'workload-mix')
+    if mix.random() < 0.3:
+        only_new = all(st['mode'] == 'new' for st in steps)
+        for st in steps:
+            if st['mode'] != 'new':
+                continue
+            if mix.random() < 0.6:
+                st['save_frequency'] = mix.choice([1, 2, 3, 5, 7])
+            if only_new and mix.random() < 0.5:
+                st['entry'] = mix.choice(['api', 'run_file', 'cli'])
     return {'property': PROP, 'seed': seed, 'knobs': knobs, 'steps': steps}
 
 
@@ -504,7 +518,9 @@ class Exec:
     # -- entry points -------------------------------------------------------
     def _run_entry(self, step, inc, prev):
         from panqec.simulation import read_input_dict, run_file
-        entry = self.knobs['entry']
+        entry = step.get('entry', self.knobs['entry'])
+        if 'entry' in step or 'save_frequency' in step:
+            self.sim.probe('launch_or_save_frequency_changed_between_runs')
         spec = json.loads(canon(step['spec']))
         n = step['target']
         if inc.mode == 'same_object':
@@ -514,7 +530,8 @@ class Exec:
         if entry == 'api':
             b = read_input_dict(
                 spec, self.out_arg, verbose=False,
-                save_frequency=self.knobs['save_frequency'],
+                save_frequency=step.get('save_frequency',
+                                        self.knobs['save_frequency']),
                 update_frequency=self.knobs['update_frequency'])
             inc.batch = b
             inc.constructed = True
@@ -1097,6 +1114,12 @@ def shrink(plan, want_sig, max_exec=200):
                 q = copy.deepcopy(p)
                 q['knobs'][k] = v
                 yield q
+        for i, s in enumerate(steps):
+            for k in ('entry', 'save_frequency'):
+                if k in s:
+                    q = copy.deepcopy(p)
+                    del q['steps'][i][k]
+                    yield q
         # explicit runs form, then fewer runs
         for i, s in enumerate(steps):
             runs = _spec_runs(s['spec'])
